@@ -119,3 +119,89 @@ func paramRecordedName(fn *ssa.Function, i int) string {
 	}
 	return fn.Params[i].Name()
 }
+
+// RETURN-fresh: an exported function of a public package that returns a byte slice returns
+// memory the caller owns: the result never aliases the receiver's (or a parameter's) internal
+// storage.  Marshalled keys and encodings are routinely modified by callers (flip a bit, append);
+// a result aliasing the object's cached encoding corrupts the object.  Decided with the
+// may-alias-result summaries of E-MOD; exceptions (append-style dst results) are listed.
+var returnAliasExceptions = map[string]map[string]string{}
+
+func checkReturnFresh(p *load.Program, rule *report.Rule, discover bool) map[string]any {
+	m := modFor(p)
+	n := 0
+	var found []string
+	for _, fn := range p.ModuleFuncs() {
+		if fn.Pkg == nil || fn.Object() == nil || !fn.Object().Exported() || len(fn.Blocks) == 0 {
+			continue
+		}
+		rel := load.Rel(fn.Pkg.Pkg)
+		if strings.HasPrefix(rel, "internal") || strings.Contains(rel, "/internal") {
+			continue
+		}
+		sig := fn.Signature
+		if sig.Recv() != nil {
+			rt := sig.Recv().Type()
+			if pt, ok := rt.(*types.Pointer); ok {
+				rt = pt.Elem()
+			}
+			if nm, ok := rt.(*types.Named); ok && !nm.Obj().Exported() {
+				continue
+			}
+		}
+		hasSlice := false
+		for i := 0; i < sig.Results().Len(); i++ {
+			if sl, ok := sig.Results().At(i).Type().Underlying().(*types.Slice); ok {
+				if b, ok := sl.Elem().Underlying().(*types.Basic); ok && b.Kind() == types.Byte {
+					hasSlice = true
+				}
+			}
+		}
+		if !hasSlice {
+			continue
+		}
+		sum := m.Sum[fn]
+		if sum == nil {
+			continue
+		}
+		n++
+		name := load.FuncName(fn)
+		bad := ""
+		var idx []int
+		for i := range sum.Returns {
+			idx = append(idx, i)
+		}
+		sort.Ints(idx)
+		for _, i := range idx {
+			if i >= len(fn.Params) {
+				continue
+			}
+			pname := paramRecordedName(fn, i)
+			// only pointer receivers / pointer and slice parameters carry storage the result can alias
+			switch fn.Params[i].Type().Underlying().(type) {
+			case *types.Pointer, *types.Slice:
+			default:
+				continue
+			}
+			if outputParamNames[pname] {
+				continue // append-style: the result is the (grown) destination handed in
+			}
+			if why := returnAliasExceptions[name][pname]; why != "" {
+				continue
+			}
+			bad = pname
+			break
+		}
+		if bad == "" {
+			rule.OK(name)
+			continue
+		}
+		if discover {
+			found = append(found, name+"  aliases "+bad)
+			continue
+		}
+		rule.Fail(p.Pos(fn.Pos()), name, fmt.Sprintf("the byte slice returned may alias the storage of %q: a caller modifying the result would corrupt the object; return a copy", bad), nil)
+	}
+	sort.Strings(found)
+	return map[string]any{"exported functions returning byte slices": n, "discovered": found}
+}
